@@ -24,6 +24,7 @@ type specRecorder struct {
 	headHeld map[string]string
 	mods     map[string]bool   // heap keys modified
 	oldBase  map[string]bool   // heap keys written at a reference that existed before the loop
+	oldBases map[string]map[string]bool // ... and the (textual) references written, per key
 	ghostMod map[string]bool
 	wMoved   bool
 	epoch0   int
@@ -64,6 +65,13 @@ func (s *specRecorder) record(st *State) {
 		for _, b := range bases {
 			if !st.allocLog[b] {
 				s.oldBase[k] = true
+				if s.oldBases == nil {
+					s.oldBases = map[string]map[string]bool{}
+				}
+				if s.oldBases[k] == nil {
+					s.oldBases[k] = map[string]bool{}
+				}
+				s.oldBases[k][b] = true
 			}
 		}
 	}
@@ -174,6 +182,7 @@ func (r *Runner) loopEnter(st *State, f *Frame, hdr *ssa.BasicBlock) {
 	// 2. what does the body modify?  cells statically, heap by a speculative run
 	cells := cellsStoredInLoop(f.fn, body)
 	pre := st.clone()
+	headSeq := curFreshSeq() // symbols created from here on may vary between iterations
 	for _, a := range cells {
 		key := cellKey{f.id, a}
 		if cv, ok := st.cells[key]; ok {
@@ -213,6 +222,32 @@ func (r *Runner) loopEnter(st *State, f *Frame, hdr *ssa.BasicBlock) {
 			// only freshly allocated references were written: older ones keep their content
 			rv := BoundVar("r")
 			st.assume(Forall([]Term{rv}, Implies(Le(rv, wHead), Eq(Select(nh, rv), Select(old, rv)))))
+		} else if !rec.deep {
+			// pre-existing references were written: if each of them is a loop-invariant term
+			// (built only from symbols that existed before the loop and from no heap component
+			// the loop modifies), every other pre-existing reference keeps its content
+			invariant := true
+			var bases []string
+			for b := range rec.oldBases[k] {
+				bases = append(bases, b)
+				if b == "*" || newestSymIn(b) > headSeq {
+					invariant = false
+				}
+				for mk := range rec.mods {
+					if ht, ok := headHeap[mk]; ok && strings.Contains(b, ht.S) {
+						invariant = false
+					}
+				}
+			}
+			if invariant && len(bases) > 0 && len(bases) <= 4 {
+				sort.Strings(bases)
+				rv := BoundVar("r")
+				conds := []Term{Le(rv, wHead)}
+				for _, b := range bases {
+					conds = append(conds, Ne(rv, Term{b, SInt}))
+				}
+				st.assume(Forall([]Term{rv}, Implies(And(conds...), Eq(Select(nh, rv), Select(old, rv)))))
+			}
 		}
 		st.heap[k] = nh
 	}
@@ -229,7 +264,6 @@ func (r *Runner) loopEnter(st *State, f *Frame, hdr *ssa.BasicBlock) {
 		}
 	}
 	st.bumpW()
-	st.defs = map[string]Term{}
 	// 4. assume invariants
 	lr := &loopRun{heapAtHead: headHeap}
 	if ls != nil {
